@@ -629,7 +629,7 @@ class Collect:
         self.failures = []
 
     def fail(self, kind, case, detail, key=None):
-        self.failures.append({'kind': kind, 'detail': detail})
+        self.failures.append({'kind': kind, 'detail': detail, 'key': key})
 
     def count(self, *a, **k):
         pass
@@ -806,9 +806,11 @@ def stream_small(R):
         if spec[0] in ('rect', 'ell') and spec[5] is not None and spec[5][0] == 'mult' and spec[5][2] != 0:
             # the near-multiple angles matter for the initial containment test: short sequences only
             seqs = [()] + ([(a,) for a in alphabet[:1] + alphabet[6:7]] if R.quick() else [(a,) for a in alphabet])
-        for ops in seqs:
+        for iseq, ops in enumerate(seqs):
             if not ops_valid(spec, ops):
                 continue
+            if len(ops) == 2 and spec[0] in ('rect', 'ell') and (iseq + len(base)) % 2:
+                continue          # rectangles / ellipses: every other length-2 sequence (polygons and the round shapes get all of them)
             if spec[0] == 'poly' and ops and not poly_center_reliable(spec, ops):
                 continue
             try:
@@ -841,7 +843,7 @@ def ops_valid(spec, ops):
 
 def stream_random(R):
     B = Batch(R, 'random')
-    n = R.pick(700, 3500)
+    n = R.pick(700, 2500)
     for i in range(n):
         rng = R.subrng('random', i)
         spec = random_spec(rng)
